@@ -585,7 +585,26 @@ Section WF.
     | XOp o => obj_ok fs ps o
     | XObj r k sdyn svs sfs dops => objs_ok sfs dops /\ slot_matches fs ps r k sfs
     | XAgain _ _ _ => True         (* stateless reading: nothing is offered *)
+    | XFrom r k from =>            (* an item taken from elsewhere in the tree: the two places are declared over the same fields *)
+        match fields_at from fs with Some sfs => slot_matches fs ps r k sfs | None => True end
     end.
+
+  (* what is found at a path of a well-formed configuration is well-formed for the fields the schema declares there *)
+  Lemma cfg_at_wf : forall sp fs c src, wf_cfg fs c -> cfg_at F sp c fs = Some src ->
+    exists sfs, fields_at sp fs = Some sfs /\ wf_cfg sfs src.
+  Proof.
+    induction sp as [|[k|k i] sp IH]; intros fs c src Hw H; cbn [Config.cfg_at fields_at] in *.
+    - inversion H; subst. exists fs. split; [reflexivity | exact Hw].
+    - destruct (fget F k fs) as [[f|dyn' vs' fs'|req vs' fs' q]|] eqn:Ef; try discriminate.
+      destruct (dget k (c_data c)) as [[v|sub|l]|] eqn:Eg; try discriminate.
+      pose proof (wf_cfg_get _ _ _ _ Hw Eg) as Hs. unfold wf_slot in Hs. rewrite Ef in Hs. cbn [wf_val] in Hs.
+      eapply IH; eauto.
+    - destruct (fget F k fs) as [[f|dyn' vs' fs'|req vs' fs' q]|] eqn:Ef; try discriminate.
+      destruct (dget k (c_data c)) as [[v|sub|l]|] eqn:Eg; try discriminate.
+      destruct (nth_error l i) as [it|] eqn:En; [|discriminate].
+      pose proof (wf_cfg_get _ _ _ _ Hw Eg) as Hl. unfold wf_slot in Hl. rewrite Ef in Hl. apply wf_val_list in Hl.
+      eapply IH; [|exact H]. eapply wf_items_nth; eauto.
+  Qed.
 
   (* an object well-formed for the schema it was built from meets obj_ok wherever that schema is the slot's *)
   Lemma offered_obj_ok : forall fs ps r k sfs src, ok_fields fs -> slot_matches fs ps r k sfs -> wf_cfg sfs src ->
@@ -597,7 +616,7 @@ Section WF.
   Qed.
   Theorem resolve_obj_ok : forall fs ps x w o, ok_fields fs -> xobj_ok fs ps x -> snd (resolve w x) = Some o -> obj_ok fs ps o.
   Proof.
-    intros fs ps x w o Hok Hx Hr. destruct x as [o0|r k sdyn svs sfs dops|r k dops]; cbn [Config.resolve xobj_ok] in *.
+    intros fs ps x w o Hok Hx Hr. destruct x as [o0|r k sdyn svs sfs dops|r k dops|r k from]; cbn [Config.resolve xobj_ok] in *; [| | |discriminate].
     - inversion Hr; subst. exact Hx.
     - destruct Hx as [Hd Hs]. destruct (detached w sdyn svs sfs dops) as [w1 src] eqn:Ed. cbn [snd] in Hr. inversion Hr; subst. clear Hr.
       unfold slot_matches in Hs.
@@ -619,9 +638,17 @@ Section WF.
     ok_fields fs -> wf_cfg fs c -> xobj_ok fs ps x -> at_path_x ps w pre c dyn vs fs x = (w', c', oc1) -> wf_cfg fs c'.
   Proof.
     intros ps x w pre c dyn vs fs w' c' oc1 Hok Hw Hx H. unfold Config.at_path_x in H.
-    pose proof (resolve_obj_ok fs ps x w) as Ho. destruct (resolve w x) as [w1 [o|]]; cbn [snd] in Ho.
-    - eapply step_wf; [exact Hok | exact Hw | apply Ho; auto | exact H].
-    - inversion H; subst. exact Hw.
+    assert (Hgen : match resolve w x with
+                   | (w1, Some o) => at_path ps w1 pre c dyn vs fs o
+                   | (w1, None) => (w1, c, OUnm)
+                   end = (w', c', oc1) -> wf_cfg fs c').
+    { clear H. intro H. pose proof (resolve_obj_ok fs ps x w) as Ho. destruct (resolve w x) as [w1 [o|]]; cbn [snd] in Ho.
+      - eapply step_wf; [exact Hok | exact Hw | apply Ho; auto | exact H].
+      - inversion H; subst. exact Hw. }
+    destruct x as [o0|r k sdyn svs sfs dops|r k dops|r k from]; try (apply Hgen; exact H).
+    cbn [xobj_ok] in Hx. destruct (cfg_at F from c fs) as [src|] eqn:Ec; [|inversion H; subst; exact Hw].
+    destruct (cfg_at_wf from fs c src Hw Ec) as [sfs [Ea Hsrc]]. rewrite Ea in Hx.
+    eapply step_wf; [exact Hok | exact Hw | | exact H]. eapply offered_obj_ok; eauto.
   Qed.
 
   Fixpoint run_x (ops : list (list pstep * xop F)) (w : world) (c : cfg) (dyn : bool) (vs : list N) (fs : list (str * node F)) : cfg :=
@@ -659,6 +686,8 @@ Section WF.
         (ok_fields sfs /\ objs_ok sfs dops /\ slot_matches fs ps rt k sfs) /\ xs_ok fs r (Some sfs)
     | (ps, XAgain rt k dops) :: r =>
         match held with Some sfs => objs_ok sfs dops /\ slot_matches fs ps rt k sfs | None => True end /\ xs_ok fs r held
+    | (ps, XFrom rt k from) :: r =>
+        match fields_at from fs with Some sfs => slot_matches fs ps rt k sfs | None => True end /\ xs_ok fs r held
     end.
   Definition kept_ok (held : option (list (str * node F))) (last : kept F) : Prop :=
     match last with
@@ -673,7 +702,7 @@ Section WF.
     ok_fields fs -> wf_cfg fs c -> kept_ok held last -> xs_ok fs ops held -> wf_cfg fs (run_xs ops w last c dyn vs fs).
   Proof.
     induction ops as [|[ps x] ops IH]; intros w last c dyn vs fs held Hok Hw Hk Hx; cbn [run_xs]; [exact Hw|].
-    destruct x as [o|rt k sdyn svs sfs dops|rt k dops]; cbn [xs_ok] in Hx; cbn [Config.at_path_xs].
+    destruct x as [o|rt k sdyn svs sfs dops|rt k dops|rt k from]; cbn [xs_ok] in Hx; cbn [Config.at_path_xs].
     - destruct Hx as [Ho Hx]. destruct (at_path ps w [] c dyn vs fs o) as [[w1 c1] o1] eqn:E.
       eapply IH; [exact Hok | eapply step_wf; eauto | exact Hk | exact Hx].
     - destruct Hx as [[Hsk [Hd Hs]] Hx]. destruct (detached w sdyn svs sfs dops) as [w1 src] eqn:Ed.
@@ -689,6 +718,11 @@ Section WF.
         eapply IH; [exact Hok | | apply kept_ok_refused; [reflexivity | exact Hsk | exact Hsrc] | exact Hx].
         eapply step_wf; [exact Hok | exact Hw | | exact E]. eapply offered_obj_ok; eauto.
       + eapply IH; [exact Hok | exact Hw | exact I | exact Hx].
+    - destruct Hx as [Hf Hx]. destruct (cfg_at F from c fs) as [src|] eqn:Ec; [|eapply IH; eauto].
+      destruct (cfg_at_wf from fs c src Hw Ec) as [sfs [Ea Hsrc]]. rewrite Ea in Hf.
+      destruct (at_path ps w [] c dyn vs fs (obj_cop rt k src)) as [[w1 c1] o1] eqn:E.
+      eapply IH; [exact Hok | | exact Hk | exact Hx].
+      eapply step_wf; [exact Hok | exact Hw | | exact E]. eapply offered_obj_ok; eauto.
   Qed.
   (* C01 over histories with side-built, kept and re-offered configuration objects *)
   Theorem reachable_xs_wf : forall ops w dyn vs fs, ok_fields fs -> xs_ok fs ops None ->
